@@ -569,13 +569,9 @@ Section Sound.
       + assert (Hc': enc_ok n E (nt_mode (c_ntd d) (f_ntover f)) (c_ntd d) (f_sty f) fv x = true).
         { unfold f_sty. rewrite Eser. apply negb_true_iff in Hser. rewrite Hser in Hc. exact Hc. }
         eapply (IH _ _ _ _ _ Hc' mf m' s'); eauto.
-      + destruct (f_tv f) eqn:Etv.
-        * (* declared as a bare type variable: the empty schema accepts whatever the real type serializes to *)
-          unfold f_sty in Hs'. rewrite Eser, Etv in Hs'. destruct mf as [|mf']; [discriminate|]. cbn in Hs'. inv Hs'.
-          destruct k as [|k']; [lia|]. reflexivity.
-        * assert (Hc': enc_ok n E (nt_mode (c_ntd d) (f_ntover f)) (c_ntd d) (f_sty f) fv x = true).
-          { unfold f_sty. rewrite Eser, Etv. exact Hc. }
-          eapply (IH _ _ _ _ _ Hc' mf m' s'); eauto.
+      + assert (Hc': enc_ok n E (nt_mode (c_ntd d) (f_ntover f)) (c_ntd d) (f_sty f) fv x = true).
+        { unfold f_sty. rewrite Eser. exact Hc. }
+        eapply (IH _ _ _ _ _ Hc' mf m' s'); eauto.
     - assert (Hr: forallb (has_key ms) (map f_key (filter (frequired (c_omit d)) (c_fields d))) = true).
       { apply forallb_forall. intros key Hin. apply in_map_iff in Hin. destruct Hin as (f & <- & Hf).
         apply filter_In in Hf. destruct Hf as [Hf Hd].
